@@ -34,3 +34,29 @@ Fixpoint in_fovb (sizes : list Z) (X : list Qc) : bool :=
   | [], [] => true
   | _, _ => false
   end.
+
+(* ---- helpers of the correspondence check (comparison inside Coq) ---- *)
+From DV Require Import Base.QcCmp.
+Definition zJ2 (jx jy : Z) : list Qc := [of_Z (K:=QcF) jx; of_Z (K:=QcF) jy].
+Definition zJ3 (jx jy jz : Z) : list Qc := [of_Z (K:=QcF) jx; of_Z (K:=QcF) jy; of_Z (K:=QcF) jz].
+Definition enum {A} (l : list A) : list (Z * A) := combine (zseq (zlen l)) l.
+(* model value function valf vs. implementation values in tensor order; amb J = the comparison at J is
+   legitimately ambiguous under float rounding (nearest-neighbour tie, buffer boundary) *)
+Definition cmp_lat2 (tol : Q) (valf : list Qc -> Qc) (amb : list Qc -> bool) (impl : list (list Qc)) : bool :=
+  forallb (fun r => forallb (fun e => let J := zJ2 (fst e) (fst r) in qcloser tol (valf J) (snd e) || amb J) (enum (snd r))) (enum impl).
+Definition cmp_lat3 (tol : Q) (valf : list Qc -> Qc) (amb : list Qc -> bool) (impl : list (list (list Qc))) : bool :=
+  forallb (fun s => forallb (fun r => forallb (fun e => let J := zJ3 (fst e) (fst r) (fst s) in qcloser tol (valf J) (snd e) || amb J)
+                                               (enum (snd r))) (enum (snd s))) (enum impl).
+Definition cmp_pts (tol : Q) (valf : list Qc -> Qc) (amb : list Qc -> bool) (pts : list (list Qc)) (impl : list Qc) : bool :=
+  Nat.eqb (length pts) (length impl) && forallb (fun e => qcloser tol (valf (fst e)) (snd e) || amb (fst e)) (combine pts impl).
+Definition count_lat2 (f : list Qc -> bool) (nx ny : Z) : nat :=
+  length (filter (fun x => x) (flat_map (fun jy => map (fun jx => f (zJ2 jx jy)) (zseq nx)) (zseq ny))).
+Definition count_lat3 (f : list Qc -> bool) (nx ny nz : Z) : nat :=
+  length (filter (fun x => x) (flat_map (fun jz => flat_map (fun jy => map (fun jx => f (zJ3 jx jy jz)) (zseq nx)) (zseq ny)) (zseq nz))).
+(* within eps of ITK's buffer boundary -1/2 or n-1/2 on some axis *)
+Fixpoint near_edge (eps : Q) (sizes : list Z) (X : list Qc) : bool :=
+  match sizes, X with
+  | n :: s', x :: X' => Qle_bool (Qabs (this x + (1 # 2))) eps || Qle_bool (Qabs (this x - inject_Z n + (1 # 2))) eps || near_edge eps s' X'
+  | _, _ => false
+  end.
+Definition no_amb (X : list Qc) : bool := false.
